@@ -17,9 +17,12 @@ Cases (JSON):
   {"op":"compact.encode","shape":[..],"lat":kind,"pbc":..,"ptype":..,"terms":[{"kind","dtype","coeffs"}]}
 """
 from __future__ import annotations
-import itertools
+import itertools, json, os
 from fractions import Fraction
+for _v in ("OMP_NUM_THREADS", "OPENBLAS_NUM_THREADS", "MKL_NUM_THREADS"):
+    os.environ.setdefault(_v, "2")      # several checks share the machine; the matrices here are small
 import numpy as np
+from scipy import sparse
 from common import import_qib, run_correspondence, q as qstr, cq, unq
 
 PROP = "C13"
@@ -277,7 +280,7 @@ def model_req(case):
     if op == "compact.encode":
         return {"op": op, "nfields": 1 if case["terms"] else 0, "fermion": case["ptype"] == "fermion", "integer": case["lat"] == "integer",
                 "shape": list(case["shape"]), "pbc": [bool(case["pbc"])] * len(case["shape"]) if isinstance(case["pbc"], bool) else list(case["pbc"]),
-                "terms": [{"hop": t["kind"] == "hop", "float": t["dtype"] in ("float", "float32"),
+                "terms": [{"hop": t["kind"] == "hop", "float": t["dtype"] == "float",
                            "coeffs": [[qstr(v) for v in row] for row in t["coeffs"]]} for t in case["terms"]]}
     return dict(case)
 
@@ -293,7 +296,8 @@ def compare(case, o, m):
     if case["op"] == "compact.encode":
         if a["nsites"] != b["nsites"] or a["herm"] != b["herm"]:
             return f"nsites/is_hermitian: impl ({a['nsites']},{a['herm']}) != model ({b['nsites']},{b['herm']})"
-        sa, sb = sorted(a["strings"], key=repr), sorted(b["strings"], key=repr)
+        key = lambda e: json.dumps(e, sort_keys=True)
+        sa, sb = sorted(a["strings"], key=key), sorted(b["strings"], key=key)
         if sa != sb:
             d = [e for e in sa if e not in sb][:2]
             return f"(string, weight) sets differ: {len(sa)} vs {len(sb)} entries, e.g. impl has {d}"
@@ -479,7 +483,7 @@ def admissible(case):
     n0, n1 = case["shape"]
     L = n0 * n1
     for t in case["terms"]:
-        if t["kind"] != "hop" or t["dtype"] not in ("float", "float32"):
+        if t["kind"] != "hop" or t["dtype"] != "float":     # any other dtype (int, complex, float32) is refused explicitly
             return False
         c = t["coeffs"]
         for a in range(L):
@@ -489,12 +493,6 @@ def admissible(case):
                 if a != b and c[a][b] != 0 and not is_nn(divmod(a, n1), divmod(b, n1)):
                     return False
     return True
-
-
-def dense_of(m):
-    if hasattr(m, "toarray"):
-        m = m.toarray()
-    return np.asarray(m, dtype=complex)
 
 
 def oracle_encode(case, o):
@@ -532,54 +530,74 @@ def oracle_encode(case, o):
 _loopmat = {}
 
 
+def amax(M):
+    M = sparse.csr_matrix(M)
+    return float(abs(M).max()) if M.nnz else 0.0
+
+
 def oracle_spectrum(case, v, Hop, shape, loops):
-    """numeric check of the statement itself on the matrices (`PauliOperator.as_matrix()`)"""
+    """numeric check of the statement itself on the matrices (`PauliOperator.as_matrix()`), in sparse arithmetic:
+    H Hermitian, [H, L_f] = 0, P = prod (1 + L_f)/2 an orthogonal projector, and the spectrum of H on range(P) (through an
+    explicit orthonormal basis of range(P): one column of P per orbit of basis states) = fermionic levels x constant multiplicity"""
     bad = []
     n0, n1 = shape
     L = n0 * n1
-    H = dense_of(Hop.as_matrix())
+    H = sparse.csr_matrix(Hop.as_matrix(), dtype=complex)
     d = H.shape[0]
-    if d != 2 ** v["nsites"]:
+    if H.shape != (2 ** v["nsites"],) * 2:
         return [("C13:encode:matrix-shape", f"{H.shape}")]
-    if not np.allclose(H, H.conj().T, rtol=0, atol=1e-12):
-        bad.append(("C13:encode:matrix-not-hermitian", f"shape {shape}: |H - H^dagger| = {np.abs(H - H.conj().T).max()}"))
-    # loop matrices from the real code's strings
-    if shape not in _loopmat:
+    if amax(H - H.getH()) > 1e-12:
+        bad.append(("C13:encode:matrix-not-hermitian", f"shape {shape}: |H - H^dagger| = {amax(H - H.getH())}"))
+    if shape not in _loopmat:      # loop matrices from the real code's strings
         PS = _ctx["qib"].operator.PauliString
         _loopmat.clear()
         ss = shape_strings(shape)
-        _loopmat[shape] = [dense_of(PS(np.array(p["z"]), np.array(p["x"]), p["q"]).as_matrix()) for _, p in ss["loops"]]
+        _loopmat[shape] = [sparse.csr_matrix(PS(np.array(p["z"]), np.array(p["x"]), p["q"]).as_matrix(), dtype=complex) for _, p in ss["loops"]]
     Ls = _loopmat[shape]
-    P = np.eye(d, dtype=complex)
+    I = sparse.identity(d, dtype=complex, format="csr")
+    P = I
     for (c, _), Lm in zip(loops, Ls):
-        if not np.allclose(H @ Lm, Lm @ H, rtol=0, atol=1e-12):
+        if amax(H @ Lm - Lm @ H) > 1e-12:
             bad.append(("C13:encode:matrix-does-not-commute-with-loop", f"shape {shape}: face {c}"))
             return bad
-        P = P @ (np.eye(d) + Lm) / 2
-    if not (np.allclose(P, P.conj().T, atol=1e-12) and np.allclose(P @ P, P, atol=1e-12)):
+        P = (P @ (I + Lm)) * 0.5
+    if amax(P - P.getH()) > 1e-12 or amax(P @ P - P) > 1e-12:
         return bad + [("C13:loop:joint-projector-broken", f"shape {shape}: product of (1+L)/2 is not an orthogonal projector")]
-    r = int(round(np.trace(P).real))
+    Pc = sparse.csc_matrix(P)
+    covered = np.zeros(d, dtype=bool)
+    cols, scale = [], []
+    for j in range(d):
+        if covered[j]:
+            continue
+        lo, hi = Pc.indptr[j], Pc.indptr[j + 1]
+        idx = Pc.indices[lo:hi][np.abs(Pc.data[lo:hi]) > 1e-14]
+        if len(idx) == 0:
+            continue
+        covered[idx] = True
+        cols.append(j)
+        scale.append(1.0 / np.sqrt(P[j, j].real))
+    r = len(cols)
+    B = Pc[:, cols] @ sparse.diags(scale)
+    if amax(B.getH() @ B - sparse.identity(r)) > 1e-10 or abs(P.diagonal().sum().real - r) > 1e-8:
+        return bad + [("C13:loop:joint-projector-broken", f"shape {shape}: orbit columns of the projector are not an orthonormal basis of its range")]
     # fermionic reference spectrum: H_f = sum h_ij a_i^dagger a_j  =>  levels = subset sums of the eigenvalues of h
     h = np.zeros((L, L))
     for t in case["terms"]:
         h += np.array(t["coeffs"], dtype=float)
-    eps = np.linalg.eigvalsh(h)
     levels = np.zeros(1)
-    for e in eps:
+    for e in np.linalg.eigvalsh(h):
         levels = np.concatenate([levels, levels + e])
     levels.sort()
     if r == 0 or r % (2 ** L) != 0:
         return bad + [("C13:encode:code-space-dimension", f"shape {shape}: joint +1 eigenspace has dimension {r}, fermionic space {2 ** L}")]
     mult = r // 2 ** L
-    # spectrum of H restricted to the code space: eigenvalues of P H P with the kernel of P removed
-    shift = 1000.0
-    ev = np.linalg.eigvalsh(P @ H @ P + shift * (np.eye(d) - P))
-    ev = ev[:r]
+    Hp = (B.getH() @ H @ B).toarray()
+    ev = np.linalg.eigvalsh(Hp)
     want = np.repeat(levels, mult)
-    if ev.shape != want.shape or not np.allclose(ev, want, rtol=0, atol=1e-8):
-        k = int(np.argmax(np.abs(ev - want))) if ev.shape == want.shape else -1
+    if not np.allclose(ev, want, rtol=0, atol=1e-8):
+        k = int(np.argmax(np.abs(ev - want)))
         bad.append(("C13:encode:spectrum-mismatch", f"shape {shape}: spectrum on the joint +1 eigenspace (dim {r}) differs from the fermionic one "
-                                                    f"(x{mult}); largest deviation at level {k}: {ev[k] if k >= 0 else None} vs {want[k] if k >= 0 else None}"))
+                                                    f"(each level x{mult}); largest deviation at level {k}: {ev[k]} vs {want[k]}"))
     return bad
 
 
